@@ -76,7 +76,24 @@ pub fn check_geo(rt: &tokio::runtime::Runtime, dir: &Path, g: &Geo) -> Option<(&
     for i in 0..t.pieces.len() {
         t.store_piece(dir, i);
     }
-    let res = match run_extractor(rt, &t) {
+    // two extractions: into the empty download directory, and again after every output path was
+    // overwritten with a longer file of other bytes (an earlier release, an interrupted run): the
+    // result must be exactly the described files both times
+    for pass in 0..2 {
+        if pass == 1 {
+            for (rel, want) in t.expected_outputs().iter() {
+                let _ = std::fs::write(dir.join(rel), vec![0xEEu8; want.len() + 5]);
+            }
+        }
+        if let Some(v) = extract_and_compare(rt, dir, g, &t) {
+            return Some(if pass == 1 && v.0 == "file-content-differs" { ("stale-bytes-survive-extraction", format!("(output files existed before, each 5 bytes longer, filled with 0xEE) {}", v.1)) } else { v });
+        }
+    }
+    None
+}
+
+fn extract_and_compare(rt: &tokio::runtime::Runtime, dir: &Path, g: &Geo, t: &Torrent) -> Option<(&'static str, String)> {
+    let res = match run_extractor(rt, t) {
         Ok(r) => r,
         Err(p) => return Some(("extractor-panic", format!("{:?}: {}", g, p))),
     };
@@ -112,7 +129,7 @@ pub fn check_geo(rt: &tokio::runtime::Runtime, dir: &Path, g: &Geo) -> Option<(&
 }
 
 pub fn run(ctx: &Ctx) -> Outcome {
-    let ps: Vec<usize> = ctx.tier.pick(vec![1, 2, 3, 4, 5], vec![1, 2, 3, 4, 5, 6, 7, 8, 10, 12]);
+    let ps: Vec<usize> = ctx.tier.pick(vec![1, 2, 3, 4, 5], vec![1, 2, 3, 4, 5, 6, 7, 8, 9, 10, 12, 16]);
     let geos = geometries(&ps, ctx.tier.pick(3, 4));
     let res = core::par_map(
         &geos,
@@ -143,7 +160,7 @@ pub fn run(ctx: &Ctx) -> Outcome {
     let mut o = Outcome::new("exploration");
     o.set("evaluations", json!(geos.len()));
     o.set("distinct_nontrivial", json!(multi_in_piece));
-    o.set("rule", json!(format!("every piece length p in {:?} x every list of 1..={} file lengths each in 0..=2p+1 with total <= 3p+2 (single-file form and files-list form for one file); all geometries distinct; non-trivial = at least one file starts strictly inside a piece", ps, ctx.tier.pick(3, 4))));
+    o.set("rule", json!(format!("every piece length p in {:?} x every list of 1..={} file lengths each in 0..=2p+1 with total <= 3p+2 (single-file form and files-list form for one file); each geometry extracted twice: into an empty directory and over pre-existing longer output files; all geometries distinct; non-trivial = at least one file starts strictly inside a piece", ps, ctx.tier.pick(3, 4))));
     let picks = ctx.seeded_pick(geos.len(), 5);
     o.set("samples", Value::Array(picks.iter().map(|i| json!({"p": geos[*i].p, "files": geos[*i].files, "single": geos[*i].single})).collect()));
     o.set("exhaustive", json!(true));
